@@ -135,6 +135,7 @@ def gen_query(rng, tier):
     tm["q"] = [list(x) for x in q]
     tm["ev"] = [[v, t, rng.randrange(tm["card"][v])] for v, t in ev]
     tm["mode"] = rng.choice(["query", "query", "forward"])
+    tm["direct"] = rng.random() < .35      # mode "query": call backward_inference itself instead of the query() front end
     return tm
 
 
@@ -153,6 +154,8 @@ def dbn_outcome(case, cls):
         evidence = {(VN[v], t): ev_state(case, v, s) for v, t, s in case["ev"]} or None
         if case["mode"] == "forward":
             res = inf.forward_inference(variables, evidence)
+        elif case.get("direct"):
+            res = inf.backward_inference(variables, evidence)
         else:
             res = inf.query(variables, evidence)
     except Exception as e:
@@ -239,7 +242,7 @@ def gen_history(rng, tier):
             cand = [x for x in free if x != qv]
             evv = rng.sample(cand, min(len(cand), rng.choice([1, 1, 2, 3, 4])))      # insertion order of the evidence dict is random
         steps.append({"q": [list(qv)], "ev": [[v, t, rng.randrange(tm["card"][v])] for v, t in evv],
-                      "mode": rng.choice(["query", "query", "forward"])})
+                      "mode": rng.choice(["query", "query", "forward"]), "direct": rng.random() < .3})
     tm["T"] = T
     tm["steps"] = steps
     return tm
@@ -311,7 +314,8 @@ def run_history(case, drv):
         if Fraction(m["pe"]) == 0:
             continue
         try:
-            res = inf.forward_inference(variables, evidence) if st["mode"] == "forward" else inf.query(variables, evidence)
+            res = (inf.forward_inference(variables, evidence) if st["mode"] == "forward" else
+                   inf.backward_inference(variables, evidence) if st.get("direct") else inf.query(variables, evidence))
         except Exception as e:
             return fail(f"step {i}: DBNInference.{st['mode']} raised {type(e).__name__}: {e}", **tags)
         key = (VN[v], t)
